@@ -1,5 +1,6 @@
 CONSTANTS
   Top = "A"
+  ShadowRebuilt = TRUE
   Sub = {"B", "C", "D"}
   Res = {"p1", "p2", "a1"}
   TopRes = {"p1", "p2", "a1"}
@@ -9,6 +10,8 @@ CONSTANTS
   Depth = 30
   MaxApiStreak = 2
   MaxDestr = 1
+  MftDue = FALSE
+  ObjDue = FALSE
 INIT GenInit
 NEXT GenNext
 INVARIANT PrintBehaviour
